@@ -36,10 +36,12 @@ def token_universe(tier, seed):
         toks = list(G.token_strings(4, 3, 1, seed=seed, bond_variants=True))
         toks += list(G.ring_token_strings(1, 2, seed=seed))
         toks += list(G.token_strings(3, 2, 2, seed=seed + 7, bond_variants=False))
+        toks += HYDROGEN_TOKENS
     else:
         toks = list(G.token_strings(6, 3, 2, seed=seed, bond_variants=True))
         toks += list(G.ring_token_strings(2, 3, seed=seed))
         toks += list(G.token_strings(4, 3, 1, seed=seed + 11, bond_variants=True))
+        toks += HYDROGEN_TOKENS
     seen = set()
     out = []
     for t in toks:
@@ -49,6 +51,7 @@ def token_universe(tier, seed):
     return out
 
 
+HYDROGEN_TOKENS = ["[$][H]", "[H][<]", "[$]C([H])(C#N)[$]", "[$]C(C#N)([H])[$]", "[$]C([H])C[$]", "[H]C([$])C[$]", "[<]C([2H])C[>]", "[$]CC([H])([H])[$]", "[<]N([H])C(=O)[>]", "[<]C(=O)N([H])[>]"]
 REP = ["[$]CC[$]", "[<]CC([>])c1ccccc1", "[$1]C([$1|2.5|])C=O", "[>]CO[<|0.5|]", "[$]CC([$])CO", "[<|1 0 2 0|]C(=O)[>]"]
 END = ["[$][H]", "[<]Cl", "[$1]O", "[>|3|]N"]
 TERM = ["[]", "[$]", "[<]", "[>]", "[$1]", "[<|2|]"]
@@ -166,7 +169,7 @@ def eval_tokens(res, tokens):
         if tr is None:
             res["extra"]["skipped_reference_rejects"] = res["extra"].get("skipped_reference_rejects", 0) + 1
             continue
-        if (any(a[0] == 1 for a in tr.atoms) and tr.natoms > 1) or tr.degenerate:
+        if tr.degenerate:
             res["extra"]["skipped_degenerate"] = res["extra"].get("skipped_degenerate", 0) + 1
             continue
         res["states"] += 1
@@ -183,6 +186,9 @@ def eval_tokens(res, tokens):
         for k, (bd, d) in enumerate(zip(bds, tr.descs)):
             res["transitions"] += 6
             for (attr, got, exp) in cmp_desc(res, text, bd, d):
+                if attr == "atom" and got == d.written_atom and tr.n_written_atoms != tr.natoms:
+                    viol(res, "C02|atom|explicit-hydrogen-shifts-index", f"token {text!r} descriptor {k} ({d.text}): bound to atom {got} counting the written [H], but the fragment the library generates from has merged that hydrogen: the descriptor belongs to atom {exp}", {"text": text, "k": k})
+                    continue
                 viol(res, f"C02|{attr}|{shape_class(text, k)}", f"token {text!r} descriptor {k} ({d.text}): {attr} is {got!r}, the notation denotes {exp!r}", {"text": text, "k": k})
             classes.add(shape_class(text, k))
             if bd.descriptor_num != k:
@@ -195,6 +201,7 @@ def eval_tokens(res, tokens):
             m = Chem.MolFromSmiles(frag, p)
             if m is None:
                 raise ValueError("fragment is not SMILES")
+            m = Chem.RemoveHs(m)  # what generation does with the fragment
             atoms = [(a.GetAtomicNum(), a.GetFormalCharge(), a.GetIsotope(), a.GetIsAromatic()) for a in m.GetAtoms()]
             bonds = sorted((min(b.GetBeginAtomIdx(), b.GetEndAtomIdx()), max(b.GetBeginAtomIdx(), b.GetEndAtomIdx()), R.BOND_ORDER.get(b.GetBondType(), b.GetBondTypeAsDouble())) for b in m.GetBonds())
             res["transitions"] += 2
@@ -204,7 +211,7 @@ def eval_tokens(res, tokens):
         except Exception as e:  # noqa
             has_order = any(d.order != 1.0 for d in tr.descs)
             viol(res, f"C02|fragment-invalid|{'bond-prefix' if has_order else 'plain'}", f"token {text!r}: fragment cannot be read: {type(e).__name__} {str(e)[:60]}", {"text": text})
-        if len(tok.atoms) != tr.natoms:
+        if len(tok.atoms) != tr.n_written_atoms:
             viol(res, "C02|atom-count", f"token {text!r}: {len(tok.atoms)} atoms parsed, {tr.natoms} written", {"text": text})
     res["outcomes"] = sorted(classes)
     res["nontrivial"] = [tokens[0], len(tokens)]
